@@ -33,12 +33,26 @@ loadstate_t iobuffer::load_buffer(FILE *fin, bool ispadding)
     isfinal = true;
     return FINAL;
   }
-  if ((!ispadding) && readover)
+  if (total == 0)
+    return NODATA;
+  if (!ispadding)
   {
-    isfinal = true;
-    return FINAL;
+    // a full chunk may be the last one: look one byte ahead instead of trusting feof()
+    if (!readover)
+    {
+      int next = fgetc(fin);
+      if (next == EOF)
+        readover = true;
+      else
+        ungetc(next, fin);
+    }
+    if (readover)
+    {
+      isfinal = true;
+      return FINAL;
+    }
   }
-  return load == 0 ? NODATA : FULL;
+  return FULL;
 }
 /*
 export_buffer:将缓冲区内容保存到文件
